@@ -1,5 +1,8 @@
 import MdIt.BlockTable
 import MdIt.Proofs.BlockRules
+import MdIt.Props.C01l
+import MdIt.Props.C10i
+import MdIt.Props.C02c
 /-!
 # C10 (continued) — the `table` rule: what it can and cannot do to a parse
 
@@ -61,5 +64,115 @@ theorem table_inert_without_pipe (codeOn : Bool) (terms : List BRule) (ws : List
   rcases hhead with h | ⟨e, h⟩
   · rw [h]; exact .inl rfl
   · rw [h]; exact .inr ⟨e, rfl⟩
+
+/-! ### the vocabulary of the table rule -/
+
+def tableTypes : List String :=
+  ["table_open", "thead_open", "tr_open", "th_open", "inline", "th_close", "tr_close", "thead_close", "tbody_open", "td_open", "td_close",
+   "tbody_close", "table_close"]
+
+/-- every token is one the state held before, or carries a type of the table vocabulary -/
+def OldOrTable (old : List Tok) (ts : List Tok) : Prop := ∀ t ∈ ts, (∃ u ∈ old, t.type = u.type) ∨ t.type ∈ tableTypes
+
+theorem oldOrTable_self (old : List Tok) : OldOrTable old old := fun t ht => .inl ⟨t, ht, rfl⟩
+
+theorem oldOrTable_pushT (old : List Tok) (s : BState) (ty tag : String) (n : Int) (at_ m c d) (h : OldOrTable old s.tokens)
+    (hty : ty ∈ tableTypes) : OldOrTable old (s.pushT ty tag n at_ m c d).tokens := by
+  intro t ht
+  simp only [BState.pushT, List.mem_append, List.mem_singleton] at ht
+  rcases ht with ht | rfl
+  · exact h t ht
+  · exact .inr hty
+
+theorem oldOrTable_cells (old : List Tok) (ws : List Nat) (o c tg : String) (ho : o ∈ tableTypes) (hcl : c ∈ tableTypes) (line : Nat)
+    (cols : List (List Char)) : ∀ (as : List String) (i : Nat) (s : BState), OldOrTable old s.tokens →
+      OldOrTable old (pushCells ws o c tg line cols as i s).tokens := by
+  intro as
+  induction as with
+  | nil => intro i s h; exact h
+  | cons a rest ih =>
+    intro i s h
+    simp only [pushCells]
+    exact ih _ _ (oldOrTable_pushT old _ _ _ _ _ _ _ _ (oldOrTable_pushT old _ _ _ _ _ _ _ _ (oldOrTable_pushT old _ _ _ _ _ _ _ _ h ho)
+      (by decide)) hcl)
+
+theorem oldOrTable_body (old : List Tok) (codeOn : Bool) (terms : List BRule) (hin : ∀ t ∈ terms, SilentInert t) (ws : List Nat)
+    (aligns : List String) (startLine endLine : Nat) :
+    ∀ (fuel next : Nat) (s : BState) (r : Nat) (s' : BState), endLine < s.lines.length →
+      tableBody codeOn terms ws aligns startLine endLine fuel next s = .ok (r, s') → OldOrTable old s.tokens → OldOrTable old s'.tokens := by
+  intro fuel
+  induction fuel with
+  | zero => intro next s r s' _ h; simp [tableBody] at h
+  | succ n ih =>
+    intro next s r s' hlen h hold
+    simp only [tableBody] at h
+    split at h
+    · rename_i hlt
+      obtain ⟨l, hg, _⟩ := getL_ok s next (by omega)
+      simp only [hg] at h
+      split at h
+      · cases h; exact hold
+      · obtain ⟨b, hb⟩ := runTerminators_inert terms hin s next endLine (by omega)
+        simp only [hb] at h
+        cases b with
+        | true => cases h; exact hold
+        | false =>
+          simp only [hg] at h
+          split at h
+          · cases h; exact hold
+          · split at h
+            · cases h; exact hold
+            · refine ih _ _ _ _ ?_ h ?_
+              · rw [C01.pushT_lines, (C01.pushCells_same _ _ _ _ _ _ _ _ _).1.1, C01.pushT_lines]
+                split <;> simpa using hlen
+              · refine oldOrTable_pushT old _ _ _ _ _ _ _ _ ?_ (by decide)
+                refine oldOrTable_cells old ws _ _ _ (by decide) (by decide) _ _ _ _ _ ?_
+                refine oldOrTable_pushT old _ _ _ _ _ _ _ _ ?_ (by decide)
+                split
+                · exact oldOrTable_pushT old _ _ _ _ _ _ _ _ hold (by decide)
+                · exact hold
+    · cases h; exact hold
+
+theorem oldOrTable_modify (old ts : List Tok) (i : Nat) (m : Option (Nat × Nat)) (h : OldOrTable old ts) :
+    OldOrTable old (ts.modify i (fun t => t.setMap m)) := by
+  intro t ht
+  rcases mem_modify _ ts i t ht with h1 | ⟨u, hu, rfl⟩
+  · exact h t h1
+  · rw [C02.setMap_type]; exact h u hu
+
+/-- **C10.table_types** — whatever a call of the table rule leaves in the token list is a token that was there before (its map aside)
+    or a token of the table vocabulary: `table_open … table_close` come from this rule, and this rule emits nothing else -/
+theorem table_types (codeOn : Bool) (terms : List BRule) (hin : ∀ t ∈ terms, SilentInert t) (ws : List Nat) (s : BState) (line endLine : Nat)
+    (hlen : endLine < s.lines.length) (silent m : Bool) (s' : BState) (h : ruleTable codeOn terms ws s line endLine silent = .ok (m, s')) :
+    OldOrTable s.tokens s'.tokens := by
+  unfold ruleTable at h
+  split at h
+  · cases h
+  · cases h; exact oldOrTable_self _
+  · split at h
+    · cases h; exact oldOrTable_self _
+    · simp only at h
+      split at h
+      · cases h
+      · rename_i next s7 hb
+        cases h
+        have h6 : OldOrTable s.tokens s7.tokens := by
+          refine oldOrTable_body s.tokens codeOn terms hin ws _ _ _ _ _ _ _ _ ?_ hb ?_
+          · rw [C01.pushT_lines, C01.pushT_lines, (C01.pushCells_same _ _ _ _ _ _ _ _ _).1.1]
+            exact hlen
+          · refine oldOrTable_pushT _ _ _ _ _ _ _ _ _ ?_ (by decide)
+            refine oldOrTable_pushT _ _ _ _ _ _ _ _ _ ?_ (by decide)
+            refine oldOrTable_cells _ ws _ _ _ (by decide) (by decide) _ _ _ _ _ ?_
+            refine oldOrTable_pushT _ _ _ _ _ _ _ _ _ ?_ (by decide)
+            refine oldOrTable_pushT _ _ _ _ _ _ _ _ _ ?_ (by decide)
+            exact oldOrTable_pushT _ _ _ _ _ _ _ _ _ (oldOrTable_self _) (by decide)
+        have h8t : OldOrTable s.tokens ((s7.pushT "tbody_close" "tbody" (-1) [] none none "").pushT "table_close" "table" (-1) [] none none "").tokens :=
+          oldOrTable_pushT _ _ _ _ _ _ _ _ _ (oldOrTable_pushT _ _ _ _ _ _ _ _ _ h6 (by decide)) (by decide)
+        have h8f : OldOrTable s.tokens (s7.pushT "table_close" "table" (-1) [] none none "").tokens :=
+          oldOrTable_pushT _ _ _ _ _ _ _ _ _ h6 (by decide)
+        show OldOrTable s.tokens (if decide (next > line + 2) = true then _ else _)
+        split
+        · exact oldOrTable_modify _ _ _ _ (oldOrTable_modify _ _ _ _ h8t)
+        · exact oldOrTable_modify _ _ _ _ h8f
 
 end MdIt.C10
